@@ -1,7 +1,7 @@
 #!/usr/bin/env python3
 """shrink.py — delta-debugging of a history on the real implementation.
 
-  shrink.py <propnum> <signature-regex> <history.json> <out.json> [impl|monitor]
+  shrink.py <propnum> <signature-regex> <history.json> <out.json> [impl|monitor|mismatch]
 
 Keeps removing blocks / actions while the harness + driver still report a line
 matching the signature (PROPFAIL impl ... sig=<re> for specs, `M ... <re>` for
@@ -29,7 +29,11 @@ def fails(h, propnum, sig, mode):
         else:
             out = subprocess.run(["/verif/ocaml/driver", tp, str(propnum), "all"], capture_output=True, text=True).stdout
             for line in out.splitlines():
-                if line.startswith("PROPFAIL impl") and re.search("sig=" + sig + r"(\s|$)", line):
+                if mode == "mismatch":
+                    if line.startswith("MISMATCH") and re.search(sig, line):
+                        ok = True
+                        break
+                elif line.startswith("PROPFAIL impl") and re.search("sig=" + sig + r"(\s|$)", line):
                     ok = True
                     break
     finally:
